@@ -73,7 +73,14 @@ func run(pass *analysis.Pass) (any, error) {
 		if (expr.Op == token.EQL && !val) || (expr.Op == token.NEQ && val) {
 			op = "!"
 		}
-		r := op + report.Render(pass, other)
+		rendered := report.Render(pass, other)
+		if _, ok := other.(*ast.BinaryExpr); ok && op == "!" {
+			// The comparison operators all have the same precedence, so the
+			// other operand can be an unparenthesized comparison, as in
+			// 'a < b == false'. The negation has to apply to all of it.
+			rendered = "(" + rendered + ")"
+		}
+		r := op + rendered
 		l1 := len(r)
 		r = strings.TrimLeft(r, "!")
 		if (l1-len(r))%2 == 1 {
